@@ -34,9 +34,17 @@ pub struct StorageSnapshot {
 
 impl StorageSnapshot {
     fn ensure_stats_cache_loaded(&self) {
+        #[cfg(nervusdb_verif)]
+        crate::verif_hooks::lock("stats_cache", "lock", 0);
         let mut cache = self.stats_cache.lock().unwrap();
+        #[cfg(nervusdb_verif)]
+        let _vt_cache = crate::verif_hooks::lock_acquired("stats_cache", "lock");
         if cache.is_none() {
+            #[cfg(nervusdb_verif)]
+            crate::verif_hooks::lock("pager", "read", 0);
             let pager = self.pager.read().unwrap();
+            #[cfg(nervusdb_verif)]
+            let _vt_pager = crate::verif_hooks::lock_acquired("pager", "read");
             if let Ok(stats) = self.inner.get_statistics(&pager) {
                 *cache = Some(stats);
             }
@@ -107,7 +115,11 @@ impl GraphSnapshot for StorageSnapshot {
         let index_name = format!("{}.{}", label, field);
 
         let def = {
+            #[cfg(nervusdb_verif)]
+            crate::verif_hooks::lock("index_catalog", "lock", 0);
             let catalog = self.index_catalog.lock().unwrap();
+            #[cfg(nervusdb_verif)]
+            let _vt_catalog = crate::verif_hooks::lock_acquired("index_catalog", "lock");
             catalog.get(&index_name)?.clone()
         };
         let tree = BTree::load(def.root);
@@ -120,7 +132,11 @@ impl GraphSnapshot for StorageSnapshot {
         prefix.extend_from_slice(&def.id.to_be_bytes());
         prefix.extend_from_slice(&encode_ordered_value(&storage_value));
 
+        #[cfg(nervusdb_verif)]
+        crate::verif_hooks::lock("pager", "read", 0);
         let pager = self.pager.read().unwrap();
+        #[cfg(nervusdb_verif)]
+        let _vt_pager = crate::verif_hooks::lock_acquired("pager", "read");
         let mut cursor = tree.cursor_lower_bound(&pager, &prefix).ok()?;
 
         let mut results = Vec::new();
@@ -189,7 +205,11 @@ impl GraphSnapshot for StorageSnapshot {
             return None;
         }
 
+        #[cfg(nervusdb_verif)]
+        crate::verif_hooks::lock("pager", "read", 0);
         let pager = self.pager.read().unwrap();
+        #[cfg(nervusdb_verif)]
+        let _vt_pager = crate::verif_hooks::lock_acquired("pager", "read");
         let storage_val =
             read_node_property_from_store(&pager, self.inner.properties_root, iid, key)?;
         Some(convert_property_to_api(storage_val))
@@ -205,7 +225,11 @@ impl GraphSnapshot for StorageSnapshot {
             return None;
         }
 
+        #[cfg(nervusdb_verif)]
+        crate::verif_hooks::lock("pager", "read", 0);
         let pager = self.pager.read().unwrap();
+        #[cfg(nervusdb_verif)]
+        let _vt_pager = crate::verif_hooks::lock_acquired("pager", "read");
         let storage_val =
             read_edge_property_from_store(&pager, self.inner.properties_root, edge, key)?;
         Some(convert_property_to_api(storage_val))
@@ -215,7 +239,11 @@ impl GraphSnapshot for StorageSnapshot {
         let mut props = self.inner.node_properties(iid).unwrap_or_default();
 
         if self.inner.properties_root != 0 {
+            #[cfg(nervusdb_verif)]
+            crate::verif_hooks::lock("pager", "read", 0);
             let pager = self.pager.read().unwrap();
+            #[cfg(nervusdb_verif)]
+            let _vt_pager = crate::verif_hooks::lock_acquired("pager", "read");
             extend_node_properties_from_store(&pager, self.inner.properties_root, iid, &mut props)?;
         }
 
@@ -234,7 +262,11 @@ impl GraphSnapshot for StorageSnapshot {
             .unwrap_or_default();
 
         if self.inner.properties_root != 0 {
+            #[cfg(nervusdb_verif)]
+            crate::verif_hooks::lock("pager", "read", 0);
             let pager = self.pager.read().unwrap();
+            #[cfg(nervusdb_verif)]
+            let _vt_pager = crate::verif_hooks::lock_acquired("pager", "read");
             extend_edge_properties_from_store(
                 &pager,
                 self.inner.properties_root,
